@@ -731,6 +731,11 @@ func ConvertTileXYZsToSpatialIDs(request []*object.TileXYZ, zBaseExponent int64,
 //	 入力インデックス不正       ：inputIndexにそのズームレベル(inputZoom)で存在しないインデックス値が入力されていた場合。
 //	 出力インデックス不正       ：出力altitudekeyが出力ズームレベル(outputZoom)で存在しないインデックス値になった場合。
 func ConvertAltitudekeyToMinMaxZ(altitudekey int64, altitudekeyZoomLevel int64, outputZoom int64, zBaseExponent int64, zBaseOffset int64) (int64, int64, error) {
+	// ズームレベルが 0 ～ 35 の範囲内か確認する
+	if !shape.CheckZoom(altitudekeyZoomLevel) || !shape.CheckZoom(outputZoom) {
+		return 0, 0, errors.NewSpatialIdError(errors.InputValueErrorCode, fmt.Sprintf("zoom level must be in 0-35: altitudekeyZoomLevel=%v, outputZoom=%v", altitudekeyZoomLevel, outputZoom))
+	}
+
 	// 1. check that the input index exists in the input system
 	inputResolution := common.CalculateArithmeticShift(1, altitudekeyZoomLevel)
 
@@ -1034,6 +1039,11 @@ func convertVerticallIDToBit(vZoom int64, vIndex int64, outputZoom int64, maxHei
 //	 入力インデックス不正       ：inputIndexにそのズームレベル(inputZoom)で存在しないインデックス値が入力されていた場合。
 //	 出力インデックス不正       ：出力altitudekeyが出力ズームレベル(outputZoom)で存在しないインデックス値になった場合。
 func ConvertZToMinMaxAltitudekey(inputIndex int64, inputZoom int64, outputZoom int64, zBaseExponent int64, zBaseOffset int64) (minAltitudeKey int64, maxAltitudeKey int64, err error) {
+	// ズームレベルが 0 ～ 35 の範囲内か確認する
+	if !shape.CheckZoom(inputZoom) || !shape.CheckZoom(outputZoom) {
+		return 0, 0, errors.NewSpatialIdError(errors.InputValueErrorCode, fmt.Sprintf("zoom level must be in 0-35: inputZoom=%v, outputZoom=%v", inputZoom, outputZoom))
+	}
+
 
 	// 1. check that the input index exists in the input system
 	err, ok := validateIndexExists(inputIndex, inputZoom, true)
